@@ -20,7 +20,7 @@ From Coq Require Import NArith List Bool.
 From Coq Require String.
 Import Coq.Strings.String.StringSyntax.
 From GT Require Import Base.GErrStr.
-From GT Require Import GErrModel GErrSpec GErrProofs.
+From GT Require Import GErrModel GErrSpec GErrProofs GErrRace GErrRaceProofs.
 Import ListNotations.
 
 (* the full property, as far as a functional model can state it: every law below at once *)
@@ -131,6 +131,20 @@ Theorem C15_call_defined : forall xw st v m a g,
   exists st' r, call xw st v m a = Some (st', r).
 Proof. exact call_total. Qed.
 
+(* ---- concurrency, as far as a model reaches: in the access-trace model of GErrRace.v a
+        derivation never writes an object that existed before it started, so two goroutines
+        deriving from shared factories have no conflicting pair of accesses.  (PARTIAL: that the
+        trace model matches the compiled code's memory accesses is exercised by the race-detector
+        run, not proved.) ---- *)
+Theorem C15_no_shared_writes : forall xw jobs st n,
+  n <= length st -> existsb (is_shared_write n) (thread_accesses xw st jobs) = false.
+Proof. exact thread_no_shared_write. Qed.
+
+Theorem C15_race_free_model : forall xw st jobs1 jobs2 x y,
+  In x (thread_accesses xw st jobs1) -> In y (thread_accesses xw st jobs2) ->
+  ~ conflict (length st) x y.
+Proof. exact threads_race_free. Qed.
+
 (* ---- non-vacuity: a factory with preset message and no source; Msg with padded Unicode
         white space, a blank Msg, DTag twice, Src after a derived source, Stack, Base ---- *)
 Definition ex_args (src dtag fmt : str) (site : N) : margs :=
@@ -160,6 +174,10 @@ Example C15_example_hypotheses :
   /\ stack_has_source (view_of (new_gerr (s_of "ErrX") (s_of "base") [] true)) = true.
 Proof. vm_compute. repeat split. Qed.
 
+Example C15_example_accesses :
+  thread_accesses base_wiring ex_store [(VG 0, firstn 2 ex_chain)] = [Rd 0; Wr 1; Rd 1; Wr 2].
+Proof. vm_compute. reflexivity. Qed.
+
 Print Assumptions C15_only_allocates.
 Print Assumptions C15_factory_unchanged.
 Print Assumptions C15_message.
@@ -178,3 +196,5 @@ Print Assumptions C15_stack_taking_methods.
 Print Assumptions C15_name.
 Print Assumptions C15_all.
 Print Assumptions C15_call_defined.
+Print Assumptions C15_no_shared_writes.
+Print Assumptions C15_race_free_model.
